@@ -129,11 +129,16 @@ def _retry_with_reference_names(pid, tier, root, evidence_dir=None, quiet=True):
     """A rule that anchors on the NAME of a local gives up (AnalysisError) when that local was renamed.  Renaming locals consistently preserves
     behaviour, so the rules are run once more on the tree with the locals of every function renamed towards the reference naming of the anchored
     tree (oracles/local_names.json, by binding order).  Returns the complete report of that run, or None if it cannot be analysed either."""
-    try:
-        rep, _ = _run_rules(pid, tier, root, 'names', evidence_dir=evidence_dir, quiet=quiet)
-    except Exception:
+    rep = None
+    for form in ('names', 'names+canon'):
+        try:
+            rep, _ = _run_rules(pid, tier, root, form, evidence_dir=evidence_dir, quiet=quiet)
+            break
+        except Exception:
+            rep = None
+    if rep is None:
         return None
-    rep.extra_coverage['decided_on'] = 'the tree with locals renamed to the reference naming (alpha-conversion), because a rule could not find a local it anchors on'
+    rep.extra_coverage['decided_on'] = f'the tree in normal form `{form}` (locals renamed to the reference naming; loops and conditionals in canonical spelling), because a rule could not find its anchor in the source as written'
     _decide_in_normal_forms(pid, tier, root, rep)
     return rep
 
